@@ -274,11 +274,140 @@ pub fn cases_c18(rng: &mut Rng, thorough: bool) -> Vec<GenCase> {
     v
 }
 
+// ------------------------------------------------------------------ dodecahedron projection (C15)
+
+use a5::coordinate_systems::Face;
+use a5::core::coordinate_transforms::to_cartesian;
+use a5::projections::dodecahedron::DodecahedronProjection;
+
+const TOL40: &str = "(1, (-40))"; // 9.1e-13
+
+fn cart3(t: f64, p: f64) -> [f64; 3] {
+    [p.sin() * t.cos(), p.sin() * t.sin(), p.cos()]
+}
+
+/// index of the second-nearest face centre
+pub fn second_nearest(t: f64, p: f64) -> (usize, usize) {
+    let v = cart3(t, p);
+    let mut ds: Vec<(f64, usize)> = get_origins()
+        .iter()
+        .map(|o| {
+            let a = cart3(o.axis.theta().get(), o.axis.phi().get());
+            (-(v[0] * a[0] + v[1] * a[1] + v[2] * a[2]), o.id as usize)
+        })
+        .collect();
+    ds.sort_by(|a, b| a.partial_cmp(b).unwrap());
+    (ds[0].1, ds[1].1)
+}
+
+/// sphere points: uniform, near seams (edges), near dodecahedron vertices, at / near face centres
+pub fn projection_point(rng: &mut Rng) -> (f64, f64) {
+    match rng.below(6) {
+        0 | 1 => sphere_point(rng),
+        2 => {
+            let e = 10f64.powi(-(rng.range_i(2, 10) as i32));
+            seam_point(rng, e)
+        }
+        3 => {
+            // near a dodecahedron vertex: normalised sum of three mutually adjacent face centres
+            let o = get_origins();
+            loop {
+                let i = rng.below(12) as usize;
+                let j = rng.below(12) as usize;
+                let k = rng.below(12) as usize;
+                let a = cart3(o[i].axis.theta().get(), o[i].axis.phi().get());
+                let b = cart3(o[j].axis.theta().get(), o[j].axis.phi().get());
+                let c = cart3(o[k].axis.theta().get(), o[k].axis.phi().get());
+                let d = |x: [f64; 3], y: [f64; 3]| x[0] * y[0] + x[1] * y[1] + x[2] * y[2];
+                if i == j || j == k || i == k || d(a, b) < 0.4 || d(b, c) < 0.4 || d(a, c) < 0.4 {
+                    continue;
+                }
+                let e = 10f64.powi(-(rng.range_i(2, 9) as i32));
+                let v = [a[0] + b[0] + c[0] + e * (rng.unit() - 0.5), a[1] + b[1] + c[1] + e * (rng.unit() - 0.5), a[2] + b[2] + c[2] + e * (rng.unit() - 0.5)];
+                let r = (v[0] * v[0] + v[1] * v[1] + v[2] * v[2]).sqrt();
+                return (v[1].atan2(v[0]), (v[2] / r).acos());
+            }
+        }
+        4 => {
+            let o = &get_origins()[rng.below(12) as usize];
+            let e = 10f64.powi(-(rng.range_i(1, 12) as i32));
+            (o.axis.theta().get() + (rng.unit() - 0.5) * e, (o.axis.phi().get() + (rng.unit() - 0.5) * e).abs())
+        }
+        _ => {
+            // on a symmetry line between two face centres (great circle through both)
+            let o = get_origins();
+            let i = rng.below(12) as usize;
+            let j = (i + 1 + rng.below(11) as usize) % 12;
+            let a = cart3(o[i].axis.theta().get(), o[i].axis.phi().get());
+            let b = cart3(o[j].axis.theta().get(), o[j].axis.phi().get());
+            let t = rng.unit();
+            let v = [a[0] + t * (b[0] - a[0]), a[1] + t * (b[1] - a[1]), a[2] + t * (b[2] - a[2])];
+            let r = (v[0] * v[0] + v[1] * v[1] + v[2] * v[2]).sqrt();
+            if r < 0.2 {
+                return sphere_point(rng);
+            }
+            (v[1].atan2(v[0]), (v[2] / r).acos())
+        }
+    }
+}
+
+pub fn cases_c15(rng: &mut Rng, thorough: bool) -> Vec<GenCase> {
+    let mut v = Vec::new();
+    let n = if thorough { 3000 } else { 400 };
+    let d = DodecahedronProjection::get_thread_local();
+    for _ in 0..n {
+        let (t, p) = projection_point(rng);
+        let (first, second) = second_nearest(t, p);
+        for origin in [first, second] {
+            let sp = Spherical::new(Radians::new_unchecked(t), Radians::new_unchecked(p));
+            if let Ok(f) = d.forward(sp, origin as u8) {
+                if !(f.x().is_finite() && f.y().is_finite()) {
+                    continue;
+                }
+                v.push(GenCase {
+                    coq: format!("GDodecFwd {} {} {} {} {} {}", dy(t), dy(p), origin, dy(f.x()), dy(f.y()), TOL40),
+                    desc: format!("dodecahedron.forward(theta {:e}, phi {:e}, origin {}) -> ({:e}, {:e})", t, p, origin, f.x(), f.y()),
+                    kind: if origin == first { "forward_nearest".into() } else { "forward_second".into() },
+                });
+                if let Ok(back) = d.inverse(f, origin as u8) {
+                    let c = to_cartesian(back);
+                    if c.x().is_finite() && c.y().is_finite() && c.z().is_finite() {
+                        v.push(GenCase {
+                            coq: format!("GDodecInv {} {} {} {} {} {} {}", dy(f.x()), dy(f.y()), origin, dy(c.x()), dy(c.y()), dy(c.z()), TOL40),
+                            desc: format!("dodecahedron.inverse(({:e}, {:e}), origin {}) -> theta {:e} phi {:e}", f.x(), f.y(), origin, back.theta().get(), back.phi().get()),
+                            kind: if origin == first { "inverse_nearest".into() } else { "inverse_second".into() },
+                        });
+                    }
+                }
+            }
+        }
+    }
+    // planar points in and just outside every face pentagon
+    for _ in 0..n {
+        let origin = rng.below(12) as u8;
+        let ang = std::f64::consts::TAU * rng.unit();
+        let rho = match rng.below(4) { 0 => 0.62 * rng.unit(), 1 => 0.6 + 0.2 * rng.unit(), 2 => 1e-6 * rng.unit(), _ => 0.9 * rng.unit() };
+        let f = Face::new(rho * ang.cos(), rho * ang.sin());
+        if let Ok(back) = d.inverse(f, origin) {
+            let c = to_cartesian(back);
+            if c.x().is_finite() && c.y().is_finite() && c.z().is_finite() {
+                v.push(GenCase {
+                    coq: format!("GDodecInv {} {} {} {} {} {} {}", dy(f.x()), dy(f.y()), origin, dy(c.x()), dy(c.y()), dy(c.z()), TOL40),
+                    desc: format!("dodecahedron.inverse(({:e}, {:e}), origin {}) -> theta {:e} phi {:e}", f.x(), f.y(), origin, back.theta().get(), back.phi().get()),
+                    kind: "inverse_planar".into(),
+                });
+            }
+        }
+    }
+    v
+}
+
 pub fn cases_for(prop: &str, rng: &mut Rng, thorough: bool) -> Option<(Vec<GenCase>, &'static str)> {
     Some(match prop {
         "C17" => (cases_c17(rng, thorough), "Corr.HilbertCases"),
         "C19" => (cases_c19(rng, thorough), "Corr.GeoCases"),
         "C18" => (cases_c18(rng, thorough), "Corr.GeoCases"),
+        "C15" => (cases_c15(rng, thorough), "Corr.GeoCases"),
         _ => return None,
     })
 }
